@@ -202,3 +202,90 @@ def eval_tablify(ctx: Ctx, rep: Report, fn: FuncInfo, r2: str, r3: str) -> bool:
     rep.check(not bad_r, r3, fn.site(), f"{fn.name}: one row per distinct complete index, stored under '0' as the index arcs joined by '.', each row returned once ({len(results)} table shapes evaluated)", "; ".join(f"{t}: {d}" for _, _, t, d in bad_r[:2]), key=f"{fn.key}|row-accumulation")
     rep.check(not bad_c, r2, fn.site(), f"{fn.name}: every cell lands in the row of its index under str(column arc), columns and rows partition the arcs after the base ({len(results)} table shapes evaluated)", "; ".join(f"{t}: {d}" for _, _, t, d in bad_c[:2]), key=f"{fn.key}|partition")
     return True
+
+
+# ------------------------------------------------------------------ deduped_varbinds (the walk's filter)
+def eval_filter(ctx: Ctx, rep: Report, fn: FuncInfo, r1: str, r2: str, r8: str) -> bool:
+    """
+    Specification: the bindings of the regrouped batch are visited root by root in mapping order and, within a root,
+    in the order received; a binding is yielded iff its OID lies inside one of the walk's roots (x690 containment,
+    not a textual prefix) and has not been yielded before - in an earlier batch (the seen-set handed in) or earlier
+    in this very batch; every yielded OID ends up in the seen-set.
+    """
+    import itertools as _it
+
+    r_a, r_b = OidVal((1, 3, 2)), OidVal((1, 3, 20))
+    cases = []
+    kinds = ["inside-new", "inside-seen", "outside", "prefix-trap", "other-root", "dup-in-batch"]
+    for roots in ([r_a], [r_a, r_b], [r_b, r_a]):
+        for combo in _it.product(kinds, repeat=2):
+            cases.append((roots, combo))
+    results = []
+    for roots, combo in cases:
+        seen_before = set()
+        grouped: Dict[Any, List[Any]] = {}
+        counter = [0]
+
+        def mk(oid):
+            counter[0] += 1
+            return mk_varbind(ctx, oid, f"b{counter[0]}")
+
+        first_root = roots[0]
+        shared = mk(tuple(roots[-1]) + (9, 9))  # an instance of the last root, also delivered in the first root's column
+        lst = []
+        for i, kind in enumerate(combo):
+            base = tuple(first_root)
+            if kind == "inside-new":
+                lst.append(mk(base + (1, i)))
+            elif kind == "inside-seen":
+                vb = mk(base + (2, i))
+                seen_before.add(vb.attrs["oid"])
+                lst.append(vb)
+            elif kind == "outside":
+                lst.append(mk((1, 4, i)))
+            elif kind == "prefix-trap":
+                lst.append(mk(base[:-1] + (base[-1] * 10 + 5, i)))  # 1.3.2 vs 1.3.25.x / 1.3.20 vs 1.3.205.x: textual prefix only
+            elif kind == "other-root":
+                lst.append(mk(tuple(roots[-1]) + (3, i)))
+            elif kind == "dup-in-batch":
+                lst.append(shared)
+        grouped[first_root] = lst
+        for other in roots[1:]:
+            grouped[other] = [shared, mk(tuple(other) + (7,))]
+        seen = set(seen_before)
+        kind, got = run(ctx, fn, [list(roots), grouped, seen])
+        if kind == "uneval":
+            rep.info(f"{fn.qualname} is not followed by the evaluator ({got}); reading its structure instead")
+            return False
+        want = []
+        ws = set(seen_before)
+        for root_key, binds in grouped.items():
+            for vb in binds:
+                oid = vb.attrs["oid"]
+                if any(oid in r for r in roots) and oid not in ws:
+                    ws.add(oid)
+                    want.append(vb)
+        # between roots any order is fine (the implementation sorts the columns); within one root's column the order
+        # received must be kept
+        def column_order_kept(seq) -> bool:
+            pos = {id(x): i for i, x in enumerate(seq)}
+            multi = {id(b) for binds in grouped.values() for b in binds if sum(1 for bl in grouped.values() for x in bl if x is b) > 1}
+            for binds in grouped.values():
+                idxs = [pos[id(b)] for b in binds if id(b) in pos and id(b) not in multi]
+                if idxs != sorted(idxs):
+                    return False
+            return True
+
+        ok_yield = kind == "return" and isinstance(got, list) and column_order_kept(got)
+        # the same instance delivered twice in one batch is one object here: membership is by OID, each once
+        ok_members = kind == "return" and isinstance(got, list) and sorted(tuple(x.attrs["oid"]) for x in got) == sorted(tuple(x.attrs["oid"]) for x in want)
+        ok_seen = kind == "return" and ws <= seen
+        results.append((ok_members, ok_yield, ok_seen, f"roots {[str(r) for r in roots]}, first root's column: {list(combo)}", f"{kind}: yielded {[str(x.attrs['oid']) for x in got] if isinstance(got, list) else got!r}, expected {[str(x.attrs['oid']) for x in want]}"[:300]))
+    bad1 = [r for r in results if not r[0]]
+    bad8 = [r for r in results if r[0] and not r[1]]
+    bad2 = [r for r in results if not r[2]]
+    n = len(results)
+    rep.check(not bad1, r1, fn.site(), f"{fn.name}: exactly the bindings inside a walked root that were not delivered before are yielded - once, also when an instance arrives twice in one batch ({n} batches evaluated)", "; ".join(f"{t}: {d}" for *_, t, d in bad1[:2]), key=f"{fn.key}|filter-semantics")
+    rep.check(not bad2, r2, fn.site(), f"{fn.name}: every yielded OID is recorded in the seen-set shared by all rounds ({n} batches evaluated)", "; ".join(f"{t}: {d}" for *_, t, d in bad2[:2]), key=f"{fn.key}|seen-add")
+    rep.check(not bad8, r8, fn.site(), f"{fn.name}: bindings are yielded root by root, within a root in the order received ({n} batches evaluated)", "; ".join(f"{t}: {d}" for *_, t, d in bad8[:2]), key=f"{fn.key}|reordered-within-root")
+    return True
